@@ -16,11 +16,15 @@ pub mod c14;
 pub mod c16;
 pub mod c17;
 pub mod c18;
+pub mod c19;
+pub mod c20;
+pub mod c21;
 pub mod c22;
 pub mod c23;
 pub mod c24;
 pub mod c25;
 pub mod c28;
+pub mod c29;
 pub mod workload;
 
 macro_rules! p {
@@ -49,11 +53,15 @@ pub fn all() -> Vec<PropDef> {
         p!("C16", c16),
         p!("C17", c17),
         p!("C18", c18),
+        p!("C19", c19),
+        p!("C20", c20),
+        p!("C21", c21),
         p!("C22", c22),
         p!("C23", c23),
         p!("C24", c24),
         p!("C25", c25),
         PropDef { id: "C26", cases: c25::cases26, run: c25::run26 },
         p!("C28", c28),
+        p!("C29", c29),
     ]
 }
